@@ -21,6 +21,17 @@ PKGS = ("inference", "parser", "infocf")
 def apply_variant(root, tmp, v):
     for pkg in PKGS:
         shutil.copytree(os.path.join(root, pkg), os.path.join(tmp, pkg), ignore=shutil.ignore_patterns("__pycache__"))
+    if v.get("transform") == "ast_unparse":
+        # whole-tree rewrite: comments dropped, layout and parenthesisation normalised by an ast round trip
+        import ast
+        import glob
+        for f in glob.glob(os.path.join(tmp, "inference", "*.py")) + [os.path.join(tmp, "parser", "Wrappers.py"), os.path.join(tmp, "parser", "myVisitor.py")]:
+            try:
+                src = open(f).read()
+                open(f, "w").write(ast.unparse(ast.parse(src)) + "\n")
+            except (OSError, SyntaxError):
+                return "does-not-compile"
+        return "ok"
     if v.get("patch"):
         r = subprocess.run(["patch", "-p1", "-s", "-i", v["patch"]], cwd=tmp, capture_output=True, text=True)
         return "ok" if r.returncode == 0 else "anchor-missing"
@@ -87,6 +98,9 @@ def load_variants():
     import glob
 
     vs = list(json.load(open(os.path.join(VERIF, "selftest", "corpus.json")))["variants"])
+    allp = [c["property_id"] for c in json.load(open(os.path.join(VERIF, "MANIFEST.json")))["checks"]]
+    vs.append({"id": "s-global-ast-roundtrip", "expect": "silent", "props": allp, "transform": "ast_unparse",
+               "note": "every hand-written source file rewritten by ast.unparse (comments gone, layout normalised)"})
     for mp in sorted(glob.glob(os.path.join(VERIF, "seeded", "*", "meta.json"))):
         m = json.load(open(mp))
         d = os.path.dirname(mp)
